@@ -15,6 +15,14 @@ use std::io::ErrorKind;
 pub fn families() -> Vec<Family> {
     vec![
         Family::new(
+            "c05_server",
+            "C05",
+            "pipelined requests with large patterned echo bodies to the real blocking Server while the client stalls; server write timeouts; wire tap shape oracle on the response stream",
+            c05_server,
+        )
+        .runs(1_200, 50_000)
+        .steps(1_500_000),
+        Family::new(
             "c03_server",
             "C03",
             "pipelined request sequences (every handler kind, format code, malformed bodies, notifies) to the real blocking Server vs. routing/dispatch model",
@@ -91,6 +99,89 @@ fn c03_server(case: &Case) {
         case.nontrivial();
     }
     case.progress(responses.len() as u64, expect_n as u64);
+    net::shutdown_all();
+    server.join().ok();
+}
+
+/// C05 on the blocking server: the response stream must stay whole frames whatever the
+/// client does (stall, resume) and whatever write timeout is configured.
+fn c05_server(case: &Case) {
+    use crate::codec::pattern;
+    use crate::families::client_blocking::check_tap;
+    use crate::framework::pick;
+    use simkernel::net::{NetConfig, Side};
+    let capacity = pick(&[256usize, 1024, 8192, 65_536]);
+    net::reset(NetConfig { capacity, lat_min: 0, lat_max: pick(&[0u64, 200_000]), max_segment: pick(&[0usize, 0, 100]) });
+    let counters = Arc::new(Counters::default());
+    let router = build_router(&counters, 0, true);
+    let listener = TcpListener::bind("127.0.0.1:0").unwrap();
+    let addr = listener.local_addr().unwrap();
+    let write_timeout = if simkernel::choose(4) != 0 { Some(Duration::from_millis(pick(&[1u64, 5, 40]))) } else { None };
+    let server = thread::spawn(move || {
+        let _ = Server::new(router).write_timeout(write_timeout).serve(listener);
+    });
+    let n = range(1, 8) as u64;
+    let big = simkernel::choose(3) == 0;
+    let sizes: Vec<usize> = (0..n).map(|_| if big { pick(&[8191usize, 8192, 8193, 20_000, 40_000]) } else { pick(&[0usize, 1, 100, 1000, 3000]) }).collect();
+    let stall_after = pick(&[0usize, 20, 48, 500, 9_000]);
+    let stall_ms = pick(&[0u64, 2, 10, 100, 1_000]);
+    case.sample(json!({"requests": n, "sizes": sizes, "capacity": capacity, "server_write_timeout_ms": write_timeout.map(|d| d.as_millis() as u64), "client_stalls_after_bytes": stall_after, "stall_ms": stall_ms}));
+    let Ok(s) = TcpStream::connect(addr) else {
+        case.harness_error("connect");
+        return;
+    };
+    let mut w = s.try_clone().unwrap();
+    let sz = sizes.clone();
+    let writer = thread::spawn(move || {
+        for (i, len) in sz.iter().enumerate() {
+            let id = i as u64 + 1;
+            let f = Frame::new(id, b"/custom/plain", &pattern(id, *len));
+            if write_all_retry(&mut w, &f.encode()).is_err() {
+                return;
+            }
+        }
+    });
+    // reader: consume `stall_after` bytes, stall, then drain to EOF / quiet
+    let mut r = s.try_clone().unwrap();
+    r.set_read_timeout(Some(Duration::from_millis(300))).ok();
+    let mut consumed = 0usize;
+    let mut stalled = false;
+    let mut buf = vec![0u8; 4096];
+    let mut quiet = 0;
+    loop {
+        if !stalled && consumed >= stall_after {
+            stalled = true;
+            case.probe("fault.stall_reader");
+            thread::sleep(Duration::from_millis(stall_ms));
+        }
+        let want = if stalled { buf.len() } else { (stall_after - consumed).clamp(1, buf.len()) };
+        match std::io::Read::read(&mut r, &mut buf[..want]) {
+            Ok(0) => break,
+            Ok(k) => {
+                consumed += k;
+                quiet = 0;
+            }
+            Err(e) if e.kind() == ErrorKind::WouldBlock => {
+                quiet += 1;
+                if quiet >= 3 {
+                    break;
+                }
+            }
+            Err(e) if e.kind() == ErrorKind::Interrupted => {}
+            Err(_) => break,
+        }
+    }
+    writer.join().ok();
+    let bytes = net::tap_of(&s.conn(), Side::B);
+    let (frames, tail) = check_tap(case, "blocking Server", &bytes, |f| f.id);
+    if tail > 0 {
+        case.probe("torn_frame_on_wire");
+    }
+    if frames >= 2 {
+        case.probe("multi_frame_stream");
+    }
+    case.nontrivial();
+    drop(s);
     net::shutdown_all();
     server.join().ok();
 }
